@@ -224,6 +224,18 @@ func ppuMain(c *Ctx) {
 			emit("regs", &ppuScript{stat: []int{16, 8, 64, 32, 0}[i%5], lyc: []int{144, 0, 143}[i%3], cycles: total, sw: sw2})
 		}
 	}
+	if c.Want("switch") {
+		// switched off in the cycles around the end of the first and second frame (the frame counter wraps there)
+		rng := c.Rand(1305)
+		for fr := 1; fr <= 2; fr++ {
+			for dlt := -4; dlt <= 4; dlt++ {
+				onAt := 2 + rng.Intn(30)
+				offAt := onAt + fr*17556 - 2 + dlt
+				emit("switch", &ppuScript{stat: []int{0, 8, 16, 32, 64}[rng.Intn(5)], lyc: []int{0, 153, 144}[rng.Intn(3)], cycles: offAt + 400,
+					sw: [][3]int{{onAt, 1, -1}, {offAt, 0, -1}, {offAt + 1 + rng.Intn(200), 1, -1}}})
+			}
+		}
+	}
 	if c.Want("rand") {
 		// random on/off schedules, including on-while-on and off-while-off
 		rng := c.Rand(1303)
